@@ -182,6 +182,86 @@ def random_env(rnd, d):
     env = {}
     for l in D.all_levels(d):
         for it in l["named"]:
-            if it["env"]:
+            if it.get("env"):
                 env[it["env"]] = rnd.choice(d["alpha"]["envvals"])
     return env
+
+
+# ---------------------------------------------------------------- lines for the GroupLine engine
+def leaf_occ(rnd, it, good=True):
+    return occurrence(rnd, it, good)
+
+
+def group_sentence(rnd, d):
+    groups = []
+    for f in d["named"]:
+        k = f["kind"]
+        if k in ("switch", "reqflag", "arg"):
+            for _ in range(count_for(rnd, f["arity"], f["kind"])):
+                groups.append(leaf_occ(rnd, f))
+        elif k == "alt":
+            n = {"one": 1, "opt": rnd.choice([0, 1]), "many": rnd.choice([0, 1, 2, 3]), "some": rnd.choice([1, 2, 3])}[f["arity"]]
+            for _ in range(n):
+                br = rnd.choice(f["branches"])
+                items = []
+                leaves = list(br["fields"])
+                rnd.shuffle(leaves)
+                for it in leaves:
+                    if it["kind"] == "switch" or it["arity"] == "opt":
+                        if rnd.random() < 0.5:
+                            continue
+                    items += leaf_occ(rnd, it)
+                groups.append(items)
+        else:
+            n = {"one": 1, "opt": rnd.choice([0, 1]), "many": rnd.choice([0, 1, 2, 3])}[f["arity"]]
+            for _ in range(n):
+                items = [it_name(rnd.choice(f["head"]["shorts"] + f["head"]["longs"]))]
+                named = [m for m in f["members"] if m["kind"] != "pos"]
+                rnd.shuffle(named)
+                for m in named:
+                    if m["kind"] == "switch" and rnd.random() < 0.5:
+                        continue
+                    items += leaf_occ(rnd, m)
+                for m in f["members"]:
+                    if m["kind"] == "pos":
+                        items.append(it_word(value_for(rnd, m["vt"])))
+                groups.append(items)
+    rnd.shuffle(groups)
+    if d["tail"]["kind"] == "pos":
+        words = []
+        for p in d["tail"]["items"]:
+            k = {"one": 1, "opt": rnd.choice([0, 1]), "many": rnd.choice([0, 1, 2]), "some": rnd.choice([1, 2])}[p["arity"]]
+            words += [[it_word(value_for(rnd, p["vt"]))] for _ in range(k)]
+        groups = interleave(rnd, groups, words)
+    return [i for g in groups for i in g]
+
+
+def group_pool(d):
+    import defs as D
+    pool = [it_word("1"), it_word("x")] + [it_extra(x) for x in d["alpha"]["extras"]]
+    for f in d["named"]:
+        for it in D.field_leaves(f):
+            for n in it["shorts"] + it["longs"]:
+                pool.append(it_name(n))
+                if it["kind"] == "arg":
+                    pool.append(it_eq(n, "1"))
+    return pool
+
+
+def group_line(rnd, d, mutate=0.6):
+    line = group_sentence(rnd, d)
+    if rnd.random() < mutate:
+        pool = group_pool(d)
+        for _ in range(rnd.choice([1, 1, 2])):
+            op = rnd.choice(["ins", "del", "dup", "swap"])
+            if op == "ins" or not line:
+                line.insert(rnd.randint(0, len(line)), dict(rnd.choice(pool)))
+            elif op == "del":
+                line.pop(rnd.randrange(len(line)))
+            elif op == "dup":
+                k = rnd.randrange(len(line))
+                line.insert(rnd.randint(0, len(line)), dict(line[k]))
+            elif len(line) > 1:
+                k = rnd.randrange(len(line) - 1)
+                line[k], line[k + 1] = line[k + 1], line[k]
+    return line[:24]
